@@ -48,6 +48,20 @@ CastValue(v, from, to) ==
            [] from = "Duration" /\ to = "String" -> <<4, v[2]>>
            [] OTHER -> Undet
 
+\* Pairs the documentation forbids but the engine admits (known finding): IF the engine converts, the value still has to be
+\* the calendar-correct one - the period whose span is exactly the interval, the day of a one-day interval or of a day period.
+PeriodOfInterval(iv) ==
+    LET cands == { i \in Inds : IntervalOf(PeriodOfDate(iv[1], i)) = iv }
+    IN  IF cands = {} THEN RunErr
+        ELSE <<6, PeriodOfDate(iv[1], CHOOSE i \in cands : \A j \in cands : IndRank(i) >= IndRank(j))>>
+CastBeyondTable(v, from, to) ==
+    IF IsNull(v) THEN Null
+    ELSE CASE from = "Time" /\ to = "Time_Period" -> PeriodOfInterval(v[2])
+           [] from = "Time" /\ to = "Date" -> IF v[2][1] = v[2][2] THEN <<5, v[2][1]>> ELSE RunErr
+           [] from = "Time_Period" /\ to = "Date" -> IF v[2][2] = "D" THEN <<5, PeriodStart(v[2])>> ELSE RunErr
+           [] OTHER -> Undet
+Beyond(from, to) == <<from, to>> \in {<<"Time", "Time_Period">>, <<"Time", "Date">>, <<"Time_Period", "Date">>}
+
 \* x: descriptor (from = "String") or tagged value; Null casts to Null whenever the pair is accepted
 Cast(x, from, to) ==
     IF ~CastAccepted(from, to) THEN SemErr
